@@ -190,7 +190,12 @@ pub fn odd_key(rng: &mut Rng, st: &HState, cfg: &GenCfg, write: bool) -> String 
         12 => "h/\u{e4}\u{1F600}/\u{0}/\"quoted\"/back\\slash/new\nline".to_owned(),
         13 => "$SYS".to_owned(),
         14 => format!("$SYS/{}", ["clients", "uptime", "version", "subscriptions", "locks/h", "x/y/z"][rng.below(6)]),
-        15 => format!("$SYS/clients/{}/{}", st.client_id, ["graveGoods", "lastWill", "clientName", "protocol", "subscriptions/x"][rng.below(5)]),
+        15 => format!(
+            "$SYS/clients/{}{}",
+            st.client_id,
+            // also the client's own node itself, with and without a trailing separator, and deeper paths
+            ["/graveGoods", "/lastWill", "/clientName", "/protocol", "/subscriptions/x", "", "/", "//", "/graveGoods/x/y"][rng.below(9)]
+        ),
         16 => format!("$SYS/clients/{}/graveGoods", "00000000-0000-0000-0000-000000000000"),
         17 => format!("h/{}", repeat_seg("?", rng.range(1, 40))),
         18 if !write => cfg.witness_keys[rng.below(cfg.witness_keys.len())].clone(),
